@@ -289,9 +289,10 @@ func (w *world) runC15(or *oracles) {
 	w.fixedSync = w.syncLists()
 	rmKey := any(w.rm)
 	sched.Monitor = func(task, kind, what string, held map[any]int) {
-		if w.conc.inCall[task] == 0 {
+		if w.conc.inCall[task] == 0 && !strings.HasPrefix(task, "go@") {
 			return // the harness itself looking at the cache
 		}
+		// (a goroutine started by the code under test is code under test)
 		res.Check("access-under-lock")
 		if held[rmKey] == 0 {
 			if _, seen := w.conc.unlocked[task+"/"+kind]; !seen {
@@ -347,10 +348,12 @@ func (w *world) runC15(or *oracles) {
 	}
 	// ---- mutual exclusion
 	for _, k := range sim.SortedKeys(w.conc.unlocked) {
-		task, kind, _ := strings.Cut(k, "/")
+		i := strings.LastIndex(k, "/")
+		task, kind := k[:i], k[i+1:]
 		h := task[strings.Index(task, ":")+1:]
 		if strings.HasPrefix(task, "go@") {
-			h = task
+			// a goroutine the code under test started: named by file, not line
+			h = "goroutine-started-in-" + strings.TrimPrefix(task[:strings.LastIndex(task, ":")], "go@")
 		}
 		res.Violate("C15", "access-under-lock", "C15 unlocked-access "+h+" "+kind, w.step,
 			"%s touches the %s (first: %s) without holding the resource manager's lock while %v are in flight", task, kind, w.conc.unlocked[k], names)
